@@ -266,6 +266,24 @@ def valid (file : List Line) : Bool := validFrom [] file
 
 /-! ### element lookup -/
 
+/-- one SFAC instruction: `SFAC el el …` or the explicit form `SFAC E a1 b1 … wt` (one element) -/
+inductive SfacInstr where
+  | elems (l : List String)
+  | explicit (el : String)
+deriving DecidableEq, Repr
+
+/-- `SFACTable.parse_element_line`: every instruction APPENDS to the table built so far -/
+def sfacStep (t : List String) : SfacInstr → List String
+  | .elems l => l.foldl (fun t x => t ++ [x]) t
+  | .explicit e => t ++ [e]
+
+def sfacTable (instrs : List SfacInstr) : List String := instrs.foldl sfacStep []
+
+/-- "the order of the SFAC instructions (and the order of element names in the first type of SFAC instruction)
+    define the scattering factor numbers" -/
+def specSfacTable (instrs : List SfacInstr) : List String :=
+  instrs.flatMap fun | .elems l => l | .explicit e => [e]
+
 /-- `Shelxfile.sfac2elem` over `SFACTable.__getitem__`: 0 raises IndexError (→ ''), a negative number counts
     from the end, past the end raises IndexError (→ '') -/
 def sfac2elem (table : List String) (n : Int) : String :=
